@@ -64,11 +64,12 @@ package engine
 // name the later one wins, so the files are visited in a fixed (ascending path) order
 //@ func files.sortedNames
 //@   props C05
+//@   opt append exact
 //@   ensures [ascending] forall a, b int :: 0 <= a && a < b && b < len(result) ==> result[a] <= result[b]
 //@   ensures [every-file-listed] forall k string :: has(f, k) ==> (exists j int :: 0 <= j && j < len(result) && result[j] == k)
 //@   ensures [only-files-listed] forall j int :: 0 <= j && j < len(result) ==> has(f, result[j])
 //@   ensures [a-list-of-its-own] len(result) == 0 || fresh(result)
-//@   loop 1 invariant [a-list-of-its-own] len(names) == 0 || fresh(names)
+//@   loop 1 invariant [a-list-of-its-own] names == nil || fresh(names)
 //@   loop 1 invariant [visited-files-listed] forall k string :: #done[k] ==> (exists j int :: 0 <= j && j < len(names) && names[j] == k)
 //@   loop 1 invariant [only-files-listed] forall j int :: 0 <= j && j < len(names) ==> has(f, names[j])
 
